@@ -108,6 +108,17 @@ class Scanner:
             if base is None:
                 return None
             return sp.Indexed(sp.IndexedBase(base), *idx)
+        if k in ("CXXConstructExpr", "CXXTemporaryObjectExpr") and "std::complex<" in (n.get("ctype") or "") and \
+                len(n.get("args", [])) == 2 and not n.get("list_init_alloc"):
+            try:
+                return tr.conv(n["args"][0]) + sp.I * tr.conv(n["args"][1])
+            except Unconvertible:
+                return None
+        if k == "InitListExpr" and "std::complex<" in (n.get("ctype") or "") and len(n.get("inits", [])) == 2:
+            try:
+                return tr.conv(n["inits"][0]) + sp.I * tr.conv(n["inits"][1])
+            except Unconvertible:
+                return None
         if k == "CXXOperatorCallExpr" and n.get("op") in ("+", "-", "*", "/") and len(n.get("args", [])) == 2 and \
                 "complex" in (n.get("ctype") or ""):
             try:
@@ -136,11 +147,17 @@ class Scanner:
                 args = [tr.conv(a) for a in n["args"]]
             except Unconvertible:
                 return None
-            return sp.Function(n["callee"].replace("::", "_"))(*args) if args else \
+            realv = (n.get("ctype") or "").replace("const ", "") in ("float", "double", "long double", "int", "unsigned int",
+                                                                     "long", "unsigned long")
+            return sp.Function(n["callee"].replace("::", "_"), real=True if realv else None)(*args) if args else \
                 sp.Symbol(n["callee"].replace("::", "_") + "()", real=True)
         if k == "CXXMemberCallExpr" and n.get("callee"):
             obj = A.call_object(n)
             oname = "this" if obj is None or A.is_this(obj) else A.show(obj).replace(" ", "")
+            od = A.declref(obj) if obj is not None else None
+            if od is not None and od["decl"] in tr.env and od["decl"] in self.locals:
+                # a local object bound to an expression (auto bp = ps->getProjection(0)[n]) denotes that expression
+                oname = str(tr.env[od["decl"]]).replace(" ", "")
             try:
                 args = [tr.conv(a) for a in n["args"]]
             except Unconvertible:
